@@ -96,3 +96,72 @@ Proof.
   destruct (first_with _ p_pc _ _) as [x2|e]; cbn [bind] in H; [|discriminate].
   inversion H; reflexivity.
 Qed.
+
+(* ---- when SetBFTParameters is a no-op: exactly when the requested parameters are the ones in force ---- *)
+Definition in_force_equal (s : store) (tip pcT certT : N) (vals : list (addr * N)) : bool :=
+  match lookup_le (s_params s) tip None with
+  | Some cp => vals_equal (p_vals cp) (sort_desc vals) && (p_pc cp =? pcT) && (p_cert cp =? certT)
+  | None => false
+  end.
+
+Lemma vals_equal_spec : forall a b, vals_equal a b = true <-> a = b.
+Proof.
+  unfold vals_equal. induction a as [|[x1 w1] a IH]; destruct b as [|[x2 w2] b]; cbn; split; intros H; try reflexivity; try discriminate.
+  - apply andb_prop in H as [Hl Hf]. apply andb_prop in Hf as [Hh Ht]. apply andb_prop in Hh as [H1 H2].
+    apply N.eqb_eq in H1, H2. subst. f_equal. apply IH. cbn in Hl. rewrite Hl, Ht. reflexivity.
+  - inversion H; subst. rewrite !N.eqb_refl. cbn. specialize (proj2 (IH b) eq_refl). intros G. apply andb_prop in G as [G1 G2].
+    rewrite G1, G2. reflexivity.
+Qed.
+
+Theorem set_params_noop_iff : forall batch s pcT certT vals s' tip,
+  Inv tip s -> set_params batch s pcT certT vals = Ok s' ->
+  (in_force_equal s tip pcT certT vals = true /\ s' = s) \/
+  (in_force_equal s tip pcT certT vals = false /\
+   get_params (s_params s') (tip + 1) =
+     Ok {| p_pv := total_weight vals * 2 / 3 + 1; p_pc := pcT; p_cert := certT; p_vals := sort_desc vals |}).
+Proof.
+  intros batch s pcT certT vals s' tip HI H.
+  pose proof (set_params_spec batch s pcT certT vals s' tip HI H) as (_ & _ & _ & _ & Hcases).
+  unfold set_params in H.
+  destruct (Nat.ltb batch (length vals)); [discriminate|].
+  destruct (existsb _ vals); [discriminate|].
+  destruct (_ || _); [discriminate|]. destruct (_ || _); [discriminate|].
+  unfold in_force_equal. rewrite <- (inv_cur tip s HI).
+  destruct (lookup_le (s_params s) (current_height (s_votes s)) None) as [cp|] eqn:El.
+  - destruct (vals_equal (p_vals cp) (sort_desc vals) && (p_pc cp =? pcT) && (p_cert cp =? certT)) eqn:Es.
+    + left. split; [reflexivity|]. inversion H; reflexivity.
+    + right. split; [reflexivity|]. inversion H; subst s'; clear H. cbn [s_params].
+      unfold get_params. rewrite (inv_cur tip s HI). rewrite insert_lookup_at; [reflexivity|lia|exact (inv_sorted tip s HI)|].
+      intros k' p' Hin. exact (inv_keys tip s HI k' p' Hin).
+  - right. split; [reflexivity|]. inversion H; subst s'; clear H. cbn [s_params].
+    unfold get_params. rewrite (inv_cur tip s HI). rewrite insert_lookup_at; [reflexivity|lia|exact (inv_sorted tip s HI)|].
+    intros k' p' Hin. exact (inv_keys tip s HI k' p' Hin).
+Qed.
+
+(* chain level: maxHeightCertified after a chain is the height named by its newest non-empty aggregate commit *)
+Definition newest_cert (K : list block) (init : N) : N :=
+  fold_left (fun acc x => match h_cert (fst x) with Some h => h | None => acc end) K init.
+
+Lemma set_params_keeps_mhc : forall batch s pcT certT vals s', set_params batch s pcT certT vals = Ok s' ->
+  v_mhc (s_votes s') = v_mhc (s_votes s).
+Proof.
+  intros batch s pcT certT vals s' H. unfold set_params in H.
+  destruct (Nat.ltb batch (length vals)); [discriminate|].
+  destruct (existsb _ vals); [discriminate|].
+  destruct (_ || _); [discriminate|]. destruct (_ || _); [discriminate|].
+  match type of H with (if ?c then _ else _) = _ => destruct c end; inversion H; reflexivity.
+Qed.
+
+Theorem certified_height_of_chain : forall batch K s s', run_blocks batch s K = Ok s' ->
+  v_mhc (s_votes s') = newest_cert K (v_mhc (s_votes s)).
+Proof.
+  intros batch K. induction K as [|[b chg] K IH]; intros s s' H; cbn [run_blocks bind] in H.
+  - inversion H; reflexivity.
+  - destruct (apply_block batch s (b, chg)) as [s1|e] eqn:Ea; cbn [bind] in H; [|discriminate].
+    rewrite (IH s1 s' H). unfold newest_cert. cbn [fold_left fst]. f_equal.
+    unfold apply_block in Ea. destruct (before_txs batch s b) as [s0|e] eqn:Eb; cbn [bind] in Ea; [|discriminate].
+    pose proof (certified_height_rule batch s b s0 Eb) as Hc.
+    destruct chg as [c|].
+    + rewrite (set_params_keeps_mhc _ _ _ _ _ _ Ea). exact Hc.
+    + inversion Ea; subst. exact Hc.
+Qed.
